@@ -15,6 +15,6 @@ EncOK == E.k = "enc" => /\ E.panicked = FALSE /\ E.err = FALSE
 DecOK == E.k = "dec" =>
   LET d == Dec(E.ty, E.input, 1) IN
   /\ E.panicked = FALSE
-  /\ d.ok => (E.ok /\ E.val = d.v /\ E.rn = d.p - 1 /\ E.left = Len(E.input) - (d.p - 1))
+  /\ d.ok => (E.ok /\ (E.cmpval => E.val = d.v) /\ E.rn = d.p - 1 /\ E.left = Len(E.input) - (d.p - 1))
   /\ ~d.ok => ~E.ok
 =============================================================================
